@@ -3,8 +3,11 @@
    ("text is never partially consumed") is proved about the journal grammar model in
    props/C06.v as far as that model reaches; here: the layer above the per-file parser
    and the arithmetic sites of the load path. *)
+From Coq Require Import Permutation.
 From TkModel Require Import Base Dec Txn Load.
+From TkModel Require Import Acct Accept Journal.
 From TkProofs Require Import Load_proofs.
+From TkProofs Require Import Journal_layout_proofs.
 
 (* for every per-file parser: a transaction set exists only if EVERY file was accepted,
    and it then consists of exactly the transactions of all files *)
@@ -39,3 +42,95 @@ Theorem C15_checked_arithmetic_exact : forall a b,
   /\ (forall r, dmul_checked a b = Some r -> r = dmul a b /\ fits r = true).
 Proof. exact checked_ops_exact. Qed.
 Print Assumptions C15_checked_arithmetic_exact.
+
+(* ------------------------------------------------------------------ the journal text (character-level
+   parser model TkModel.Journal, tied to the implementation by the C06 correspondence check):
+   the text is never partially consumed.  Proofs in TkProofs.Journal_layout_proofs. *)
+
+(* an accepted text (1) ends with a line terminator and is exactly its terminated lines, without a
+   stray CR; (2) its chunks are exactly the maximal runs of non-blank lines: every non-blank line is in
+   exactly one chunk, no chunk is empty or contains a blank line, each chunk is a contiguous block
+   bounded by a blank line or the edge of the text on both sides; (3) each chunk, WHOLE, is one
+   transaction; (4) there is at least one *)
+Theorem C15_no_partial_consumption : forall cfg s pts, parse_journal cfg s = Ok pts ->
+  exists ls0, split_lines s = (ls0, []) /\ s = unlines ls0
+  /\ (let ls := map strip_cr ls0 in
+      existsb (existsb (fun c => (c =? 13)%N)) ls = false
+      /\ concat (chunks ls) = filter (fun l => negb (is_blank l)) ls
+      /\ Forall (fun c => c <> [] /\ forallb (fun l => negb (is_blank l)) c = true) (chunks ls)
+      /\ (forall c, In c (chunks ls) -> exists pre post, ls = pre ++ c ++ post
+            /\ (pre = [] \/ exists p b, pre = p ++ [b] /\ is_blank b = true)
+            /\ (post = [] \/ exists b q, post = b :: q /\ is_blank b = true))
+      /\ Forall2 (fun c pt => parse_chunk cfg c = Some pt) (chunks ls) pts)
+  /\ pts <> [].
+Proof. exact no_partial_consumption. Qed.
+Print Assumptions C15_no_partial_consumption.
+
+(* ... and these conditions are exactly what is accepted *)
+Theorem C15_accepted_iff : forall cfg s pts, parse_journal cfg s = Ok pts <->
+  snd (split_lines s) = []
+  /\ existsb (existsb (fun c => (c =? 13)%N)) (map strip_cr (fst (split_lines s))) = false
+  /\ Forall2 (fun c pt => parse_chunk cfg c = Some pt) (chunks (map strip_cr (fst (split_lines s)))) pts
+  /\ pts <> [].
+Proof. exact parse_journal_ok_iff. Qed.
+Print Assumptions C15_accepted_iff.
+
+(* "whole": every line of a chunk that parses is accounted for in the transaction — the header line,
+   then the metadata lines (one per metadata item of the header), then one line per header comment,
+   then one line per posting, then the amount-less last posting if there is one; nothing else, nothing
+   after.  A left-over line anywhere in the chunk makes parse_chunk fail. *)
+Theorem C15_chunk_fully_consumed : forall cfg c pt, parse_chunk cfg c = Some pt ->
+  exists hl ms cls pls lls, c = hl :: ms ++ cls ++ pls ++ lls
+  /\ length ms = meta_cnt (pt_hdr pt)
+  /\ Forall (fun l => exists m, parse_meta_line l = Some (Some m)) ms
+  /\ Forall2 (fun l cm => parse_comment_line l = Some (Some cm)) cls (h_comments (pt_hdr pt))
+  /\ Forall2 (fun l p => parse_posting_line l = Some (PL_post (fst p) (snd p))) pls (pt_posts pt)
+  /\ match pt_last pt with
+     | None => lls = []
+     | Some (a, cm) => exists l, lls = [l] /\ parse_posting_line l = Some (PL_last a cm)
+     end.
+Proof. exact parse_chunk_consumes. Qed.
+Print Assumptions C15_chunk_fully_consumed.
+
+Theorem C15_chunk_line_count : forall cfg c pt, parse_chunk cfg c = Some pt ->
+  length c = (1 + ((match h_uuid (pt_hdr pt) with Some _ => 1 | None => 0 end)
+                   + (match h_loc (pt_hdr pt) with Some _ => 1 | None => 0 end)
+                   + (match h_tags (pt_hdr pt) with [] => 0 | _ => 1 end))
+              + length (h_comments (pt_hdr pt)) + length (pt_posts pt)
+              + match pt_last pt with Some _ => 1 | None => 0 end)%nat.
+Proof. exact parse_chunk_length. Qed.
+Print Assumptions C15_chunk_line_count.
+
+(* one chunk that is not a complete transaction — the first, one in the middle, the last — and the
+   whole text is rejected *)
+Theorem C15_incomplete_rejected : forall cfg s ls0 tl c, split_lines s = (ls0, tl) ->
+  In c (chunks (map strip_cr ls0)) -> parse_chunk cfg c = None -> parse_journal cfg s = Err E_syntax.
+Proof. exact incomplete_rejected. Qed.
+Print Assumptions C15_incomplete_rejected.
+
+(* loading a text: every parsed transaction went through the semantic layer and is kept *)
+Theorem C15_load_all_or_nothing_text : forall cfg s ts, load_journal cfg s = Ok ts ->
+  exists pts ts0, parse_journal cfg s = Ok pts
+  /\ Forall2 (fun pt t => accept_ptxn pt = Ok t) pts ts0
+  /\ ts = sort_by jtxn_leb ts0 /\ Permutation ts ts0 /\ length ts = length pts.
+Proof. exact load_journal_ok. Qed.
+Print Assumptions C15_load_all_or_nothing_text.
+
+(* ... and one transaction the semantic layer refuses rejects the text *)
+Theorem C15_load_one_bad_txn_rejects_text : forall cfg s pts pt e, parse_journal cfg s = Ok pts ->
+  In pt pts -> accept_ptxn pt = Err e -> exists e', load_journal cfg s = Err e'.
+Proof. exact load_journal_bad_txn. Qed.
+Print Assumptions C15_load_one_bad_txn_rejects_text.
+
+(* non-vacuity: two transactions separated by a run of blank lines are accepted; a line after the
+   amount-less last posting, a junk line at the end of a chunk, a missing final line terminator and a
+   missing separator line are rejected *)
+Example C15_text_examples :
+  let cfg := mkCfg 0 0 in
+  let n r := match r with Ok l => Some (length l) | Err _ => None end in
+  n (parse_journal cfg [50; 48; 50; 52; 45; 48; 49; 45; 48; 49; 32; 39; 97; 10; 32; 101; 32; 49; 10; 32; 97; 10; 10; 32; 9; 10; 50; 48; 50; 52; 45; 48; 49; 45; 48; 50; 10; 32; 101; 32; 50; 10; 32; 97; 10]%N) = Some 2%nat
+  /\ n (parse_journal cfg [50; 48; 50; 52; 45; 48; 49; 45; 48; 49; 10; 32; 101; 32; 49; 10; 32; 97; 10; 32; 101; 32; 49; 10]%N) = None
+  /\ n (parse_journal cfg [50; 48; 50; 52; 45; 48; 49; 45; 48; 49; 10; 32; 101; 32; 49; 10; 32; 97; 10; 106; 117; 110; 107; 10]%N) = None
+  /\ n (parse_journal cfg [50; 48; 50; 52; 45; 48; 49; 45; 48; 49; 10; 32; 101; 32; 49; 10; 32; 97]%N) = None
+  /\ n (parse_journal cfg [50; 48; 50; 52; 45; 48; 49; 45; 48; 49; 10; 32; 101; 32; 49; 10; 32; 97; 10; 50; 48; 50; 52; 45; 48; 49; 45; 48; 50; 10; 32; 101; 32; 50; 10; 32; 97; 10]%N) = None.
+Proof. vm_compute. repeat split. Qed.
